@@ -431,13 +431,16 @@ func (e *Engine) VirtualizationStop(ctx context.Context, ID string, _ time.Durat
 }
 
 // VirtualizationRemove .
-func (e *Engine) VirtualizationRemove(ctx context.Context, ID string, _, _ bool) error {
+func (e *Engine) VirtualizationRemove(ctx context.Context, ID string, _, force bool) error {
 	return e.gated(ctx, "VirtualizationRemove", short(ID), func() error {
 		e.host.mu.Lock()
 		defer e.host.mu.Unlock()
 		c, ok := e.host.containers[ID]
 		if !ok {
 			return coretypes.ErrWorkloadNotExists
+		}
+		if c.State == "running" && !force { // like docker: a running container is only removed with force
+			return fmt.Errorf("memengine: cannot remove running container %s without force", short(ID))
 		}
 		delete(e.host.containers, ID)
 		e.host.removed[ID] = c
